@@ -217,6 +217,14 @@ def check_state(desc, sc, pairs, flagsets, res):
                 res.add_violation(ID, run.viol('skipped-count', inp, visited - len(want), skipped))
             else:
                 res.outcomes.add('walk-agrees' if want else 'walk-agrees-empty')
+                if (k + j) % 4 == 1 and ('F' in fs or 'D' in fs):
+                    # the root spelled with a trailing separator is the same root
+                    try:
+                        alt = sorted(os.path.relpath(x, root) for x in WM.WcMatch(root + '/', fpat, epat, flags=wflags(fs)).match())
+                    except Exception as e:  # noqa: BLE001
+                        alt = type(e).__name__
+                    if alt != gotr:
+                        res.add_violation(ID, run.viol('root-trailing-separator', inp, gotr, alt))
                 if (k + j) % 5 == 0:
                     # the same object run again: same files, counter restarted
                     again = sorted(os.path.relpath(x, root) for x in w.match())
@@ -290,6 +298,10 @@ def replay(v):
         except Exception as e:  # noqa: BLE001
             return {'violates': v['kind'] == 'raises', 'observed': type(e).__name__}
         gotr = sorted(os.path.relpath(x, sc.root) for x in got)
+        if v['kind'] == 'root-trailing-separator':
+            alt = sorted(os.path.relpath(x, sc.root) for x in WM.WcMatch(sc.root + '/', inp['file_pattern'], inp['exclude_pattern'],
+                                                                         flags=wflags(inp['flags'])).match())
+            return {'violates': alt != gotr, 'observed': alt}
         if v['kind'] == 'skipped-count':
             return {'violates': w.get_skipped() != v['expected'], 'observed': w.get_skipped()}
         if v['kind'] == 'rerun-differs':
